@@ -47,7 +47,9 @@ def run(ctx):
     c01.r12_units(ctx, 'R2.8')
     r27(ctx)
     from . import callsigs as _cs
-    _cs.general_rules(ctx, 'R2', ['writer'])
+    from . import c11 as _c11
+    _c11.r113(ctx, ctx.repo['cencoding'])
+    _cs.general_rules(ctx, 'R2', ['writer', 'api.ParquetFile.remove_row_groups', 'api.ParquetFile.write_row_groups', 'api.ParquetFile._sort_part_names', 'api.ParquetFile._write_common_metadata', 'util.metadata_from_many'])
 
 
 # ---------------------------------------------------------------------------
@@ -376,7 +378,19 @@ def _file_effect(stmt, fvar, m):
 
 def r22(ctx):
     sites = footer_sites(ctx.repo)
-    ctx.floor('R2.2', 'functions that write a footer', len({q for _, q, _, _ in sites}), 4)
+    # a footer whose thrift is written without taking the size from that write (bare call) cannot be framed correctly
+    loose = []
+    wrm = ctx.repo['writer']
+    for q, f in wrm.funcs.items():
+        bare = [st for st in walk_no_nested(f) if isinstance(st, ast.Expr) and isinstance(st.value, ast.Call)
+                and callee(st.value) == 'write_thrift' and len(st.value.args) == 2 and 'fmd' in norm(st.value.args[1])]
+        magic = [c for c in walk_no_nested(f) if isinstance(c, ast.Call) and (callee(c) or '').endswith('.write') and c.args and _is_magic(c.args[0], wrm)]
+        if bare and magic:
+            loose.append(q)
+            ctx.ob('R2.2', 'writer.%s:footer-length-is-the-size-returned-by-the-thrift-write' % q, False,
+                   '`%s` discards the number of bytes written; the 4-byte length that follows must be exactly that number '
+                   '(a file position also counts whatever precedes the footer)' % norm(bare[0]), wrm.loc(bare[0]))
+    ctx.floor('R2.2', 'functions that write a footer', len({q for _, q, _, _ in sites} | set(loose)), 4)
     per_func = {}
     for m, q, f, st in sites:
         per_func.setdefault(q, []).append(st)
